@@ -184,8 +184,13 @@ def walkCfi (x : CfiIn) (o : CfiOut) (init : String) (adds : List String) : Opti
               | none => o.clearReg a n) o)
     | _, _ => none
 
-/-- `callee_forwarded_regs` -/
-def forwarded (a : Arch) (c : Ctx) : List String := a.calleeSaved.filter fun r => c.hasLit r
+/-- `callee_forwarded_regs`: x86 / x86-64 / MIPS test `which.contains(reg)`; the three ARM
+    unwinders go through `register_is_valid` (fix of F28), so that a frame pointer recorded under
+    its other name (`r11` / `x29`, as the frame-pointer unwinder does) is forwarded too -/
+def forwarded (a : Arch) (c : Ctx) : List String :=
+  match a with
+  | .arm | .arm64 | .arm64old => a.calleeSaved.filter fun r => c.has a r
+  | _ => a.calleeSaved.filter fun r => c.hasLit r
 
 /-- derived `Ord` of `CfiRules`: `(address, rules)` -/
 def addLe (p q : Nat × String) : Bool := p.1 < q.1 || (p.1 == q.1 && strLe p.2 q.2)
